@@ -51,6 +51,11 @@ type FuncContract struct {
 	Trusted  bool
 	NoWorld  bool // impure but does not bump the world token
 	Requires []*Clause
+	Assumes  []*Clause // object invariants: assumed in every mode (never peer-controlled data)
+	SafetyRoot bool
+	Inst       string
+	Opaque     bool // never inlined by the safety sweep (checked as its own root, used through its contract)
+	Reflective bool // body uses reflection: outside the verifier in every mode
 	Ensures  []*Clause
 	Axioms   []*Clause
 	Lemmas   []*Clause
@@ -128,7 +133,7 @@ func newDB() *DB {
 		specs: map[string]*SpecFun{}, fields: map[string]*FieldAnn{}, locks: map[string]*LockAnn{}, modsets: map[string][]string{}}
 }
 
-var clauseKeywords = map[string]bool{"defines": true, "modset": true, "end": true, "filter": true, "func": true, "iface": true, "extern": true, "ghost": true, "field": true, "lock": true,
+var clauseKeywords = map[string]bool{"assumes": true, "defines": true, "modset": true, "end": true, "filter": true, "func": true, "iface": true, "extern": true, "ghost": true, "field": true, "lock": true,
 	"requires": true, "ensures": true, "modifies": true, "loop": true, "define": true, "spec": true, "axiom": true,
 	"let": true, "lemma": true, "assume": true}
 
@@ -314,7 +319,18 @@ func (db *DB) parseClause(text, file string, line int, pkg string, cur **FuncCon
 				fc.Atomic = true
 			case "qf":
 				fc.QF = true
+			case "safety-root":
+				fc.SafetyRoot = true
+			case "opaque":
+				fc.Opaque = true
+			case "reflective":
+				fc.Reflective = true
 			default:
+				if strings.HasPrefix(fs[i], "inst:") {
+					// verify this instantiation of a generic function (substring of its type arguments)
+					fc.Inst = strings.TrimPrefix(fs[i], "inst:")
+					continue
+				}
 				if strings.HasPrefix(fs[i], "impl:") {
 					t := strings.TrimPrefix(fs[i], "impl:")
 					fc.Impl = resolveTarget("iface", t, pkg)
@@ -512,6 +528,12 @@ func (db *DB) parseClause(text, file string, line int, pkg string, cur **FuncCon
 			return err
 		}
 		fc.Defines_ = append(fc.Defines_, c)
+	case "assumes":
+		c, err := mkClause("assumes", rest)
+		if err != nil {
+			return err
+		}
+		fc.Assumes = append(fc.Assumes, c)
 	case "requires", "ensures", "axiom", "lemma":
 		c, err := mkClause(kw, rest)
 		if err != nil {
@@ -734,6 +756,7 @@ func (db *DB) expandImpl() error {
 			}
 			return out
 		}
+		fc.Assumes = append(cp(ic.Assumes, "assumes"), fc.Assumes...)
 		fc.Requires = append(cp(ic.Requires, "requires"), fc.Requires...)
 		fc.Ensures = append(cp(ic.Ensures, "ensures"), fc.Ensures...)
 		fc.Defines_ = append(cp(ic.Defines_, "defines"), fc.Defines_...)
